@@ -57,6 +57,7 @@ class World:
         # build the inlined models before any fault is armed
         L.inline_model_1(op, spox)
         L.inline_model_2(op, spox)
+        L.inline_model_3(op, spox)
         self.default_backend = VP._VALUE_PROP_BACKEND
 
     def close(self):
@@ -336,8 +337,8 @@ class _Collector:
 
 
 class Checker:
-    def __init__(self, run, world: World):
-        self.run, self.world = run, world
+    def __init__(self, run, world: World, pfx="C15"):
+        self.run, self.world, self.pfx = run, world, pfx
         self.minimising = isinstance(run, _Collector)
         self.cases = []          # (expr, impl_render, n_warn_impl, info) for the correspondence
         self.hist = {"templates": {}, "faults": {}, "fault_kinds": {}, "outcomes": {}, "backends": {}, "steps_per_program": {},
@@ -356,7 +357,7 @@ class Checker:
     # -- failures ------------------------------------------------------------------------------------
     def reproduces(self, prog, backend, plan, key, strict):
         col = _Collector(self.run.rng)
-        ck = Checker(col, self.world)
+        ck = Checker(col, self.world, self.pfx)
         try:
             if backend == "NONE":
                 ck.check_none_run(prog, run_program(self.world, prog, "NONE", typing=False))
@@ -403,16 +404,16 @@ class Checker:
                 continue
             if r["exc"] is not None:
                 cls = classify_exc(r["exc"])
-                self.impl_fail(f"C15/constructor-raises/{MECHANISM.get(cls, cls)}",
+                self.impl_fail(f"{self.pfx}/constructor-raises/{MECHANISM.get(cls, cls)}",
                                f"constructing {r['t']} with value propagation switched off (backend NONE) raises "
                                f"{type(r['exc']).__name__}", prog, "NONE", {}, p,
                                {"exception": f"{type(r['exc']).__name__}: {str(r['exc'])[:200]}"})
             elif r["calls"]:
-                self.run.fail("corr", "C15/backend-called-under-NONE", "an evaluator was invoked although the backend is NONE",
+                self.run.fail("corr", self.pfx + "/backend-called-under-NONE", "an evaluator was invoked although the backend is NONE",
                               {"template": r["t"]})
-            elif r["node"].op_type.identifier not in ("Constant",) and any(
+            elif r["node"].op_type.identifier not in ("Constant", "Initializer") and any(
                     v._value is not None for v in r["node"].outputs.get_vars().values()):
-                self.run.fail("corr", "C15/value-under-NONE", "an operator output carries a value although the backend is NONE",
+                self.run.fail("corr", self.pfx + "/value-under-NONE", "an operator output carries a value although the backend is NONE",
                               {"template": r["t"]})
 
     # -- per step oracles + correspondence case -----------------------------------------------------------
@@ -437,13 +438,13 @@ class Checker:
                 else:
                     mech = cls
             self.impl_failed_cases.add(case_id)
-            self.impl_fail(f"C15/constructor-raises/{mech}",
+            self.impl_fail(f"{self.pfx}/constructor-raises/{mech}",
                            f"constructing {r['t']} raises {type(r['exc']).__name__} although only the value-propagation "
                            f"backend misbehaved ({lab}; backend {backend})", prog, backend, plan, p,
                            {"exception": f"{type(r['exc']).__name__}: {str(r['exc'])[:200]}", "fault": fault})
         if r["none_exc"] is not None:
             cls = classify_exc(r["none_exc"])
-            self.impl_fail(f"C15/constructor-raises/{MECHANISM.get(cls, cls)}",
+            self.impl_fail(f"{self.pfx}/constructor-raises/{MECHANISM.get(cls, cls)}",
                            f"constructing {r['t']} with value propagation switched off (backend NONE) raises "
                            f"{type(r['none_exc']).__name__}", prog, "NONE", {}, p,
                            {"exception": f"{type(r['none_exc']).__name__}: {str(r['none_exc'])[:200]}"})
@@ -454,7 +455,7 @@ class Checker:
                     continue
                 if var.type is None:
                     self.impl_failed_cases.add(case_id)
-                    self.impl_fail("C15/nonconforming-attached/untyped", "a value is attached to a Var of unknown type",
+                    self.impl_fail(self.pfx + "/nonconforming-attached/untyped", "a value is attached to a Var of unknown type",
                                    prog, backend, plan, p, {"output": key})
                 elif not L.conforms(var.type, var._value):
                     from spox import Optional, Sequence
@@ -463,7 +464,7 @@ class Checker:
                             "optional-payload" if isinstance(var.type, Optional) else
                             "object-array-for-string" if np.dtype(var.type.dtype).kind == "U" else "tensor")
                     self.impl_failed_cases.add(case_id)
-                    self.impl_fail(f"C15/nonconforming-attached/{mech}",
+                    self.impl_fail(f"{self.pfx}/nonconforming-attached/{mech}",
                                    f"a value that does not conform to the reported type {var.type} stays attached to output "
                                    f"{key} of {r['t']} ({lab}; backend {backend})", prog, backend, plan, p,
                                    {"output": key, "type": str(var.type), "value": L.refl_pval(var._value.value), "fault": fault})
@@ -473,15 +474,15 @@ class Checker:
                 for key, var in r["node"].outputs.get_vars().items():
                     if key in tv and tv[key].type != var.type:
                         self.impl_failed_cases.add(case_id)
-                        self.impl_fail("C15/type-changed-at-node",
+                        self.impl_fail(self.pfx + "/type-changed-at-node",
                                        f"the type of output {key} of {r['t']} depends on the backend result", prog, backend, plan, p,
                                        {"with_backend": str(var.type), "propagation_off": str(tv[key].type), "fault": fault})
                 if r.get("none_calls"):
-                    self.run.fail("corr", "C15/backend-called-under-NONE", "an evaluator was invoked although the backend is NONE",
+                    self.run.fail("corr", self.pfx + "/backend-called-under-NONE", "an evaluator was invoked although the backend is NONE",
                                   {"template": r["t"]})
-        # correspondence case
+        # correspondence case (unsafe_cast = intro + retyping after the construction: modelled at program level, checked by c07)
         node = r["node"] if r["node"] is not None else r["tnode"]
-        if node is None:
+        if node is None or r["t"].startswith("unsafe_"):
             return
         nt = node_term(r["node"], r["tnode"])
         bt = L.backend_result_term(r["calls"])
@@ -513,12 +514,12 @@ class Checker:
             if vb is None or vc is None or vb is vc:
                 continue
             if not L.type_ge(vc.type, vb.type) and not tainted:
-                self.impl_fail("C15/type-not-more-permissive", "under a backend fault a downstream Var gets a type that is "
+                self.impl_fail(self.pfx + "/type-not-more-permissive", "under a backend fault a downstream Var gets a type that is "
                                "neither equal to nor more permissive than the fault-free one", prog, run_["backend"],
                                run_["plan"], None, {"env_index": i, "faulty": str(vc.type), "fault_free": str(vb.type)})
             if vc._value is not None and not tainted:
                 if vb._value is None or not L.values_equal(vc._value, vb._value):
-                    self.impl_fail("C15/value-changed-downstream", "under a detected backend fault a Var carries a value that the "
+                    self.impl_fail(self.pfx + "/value-changed-downstream", "under a detected backend fault a Var carries a value that the "
                                    "fault-free run does not have", prog, run_["backend"], run_["plan"], None,
                                    {"env_index": i, "faulty": str(vc._value)[:200], "fault_free": str(vb._value)[:200]})
 
@@ -541,14 +542,14 @@ class Checker:
                 models.append(built_models(self.world, prog, r, cand))
                 self.n_builds += 1
             except Exception as e:  # noqa: BLE001
-                self.impl_fail("C15/none-backend-changes-model/build-raises",
+                self.impl_fail(self.pfx + "/none-backend-changes-model/build-raises",
                                "build raises for a program whose requested outputs all have concrete types",
                                prog, r["backend"], r["plan"], None, {"exception": f"{type(e).__name__}: {str(e)[:300]}"})
                 return
         ref = strip_types(models[0])
         for r, m in zip(runs[1:], models[1:]):
             if strip_types(m) != ref:
-                self.impl_fail("C15/none-backend-changes-model/structure",
+                self.impl_fail(self.pfx + "/none-backend-changes-model/structure",
                                "the model built with value propagation differs (beyond the precision of reported types) from the "
                                "one built with propagation switched off", prog, r["backend"], r["plan"], None,
                                {"nodes_with": [n.op_type for n in m.graph.node], "nodes_without": [n.op_type for n in models[0].graph.node]})
@@ -569,7 +570,7 @@ class Checker:
                         and np.array_equal(res[k], results[0][k], equal_nan=res[k].dtype.kind in 'fc') for k in res))
                 self.n_ort_compared += 1
                 if not same:
-                    self.impl_fail("C15/none-backend-changes-model/results",
+                    self.impl_fail(self.pfx + "/none-backend-changes-model/results",
                                    "onnxruntime results of the model built with propagation differ from those of the model built "
                                    "with propagation switched off", prog, r["backend"], r["plan"], None,
                                    {"feed": {k: v.tolist() for k, v in feed.items()}})
@@ -577,7 +578,7 @@ class Checker:
     # -- model evaluation + comparison -----------------------------------------------------------------
     def compare_with_model(self):
         exprs = sorted({c[0] for c in self.cases})
-        res = dict(zip(exprs, self.run.coq_eval("c15", L.HEADER, exprs, shard=200)))
+        res = dict(zip(exprs, self.run.coq_eval(self.pfx.lower(), L.HEADER, exprs, shard=200)))
         mism = 0
         for expr, impl, n_warn, info in self.cases:
             model, mw = render_model(res[expr])
@@ -588,7 +589,10 @@ class Checker:
             if info["case"] in self.impl_failed_cases:
                 continue  # explained: the implementation itself violates the property on this case (reported above)
             f = info["fault"]
-            self.run.fail("corr", f"C15/model-vs-impl/{info['template']}/{L.fault_label(f)}"[:140],
+            n_corr = sum(1 for x in self.run.failures if x.kind == "corr")
+            if n_corr >= 8:
+                continue  # enough replays; the total is reported in coverage.disagreements_checked
+            self.run.fail("corr", f"{self.pfx}/model-vs-impl/{info['template']}/{L.fault_label(f)}"[:140],
                           "model and implementation disagree on a node construction under a backend fault",
                           {"template": info["template"], "backend": info["backend"], "fault": f, "strict": info["strict"],
                            "impl": impl, "impl_warnings": n_warn, "model": model, "model_warnings": mw, "expr": expr,
